@@ -103,7 +103,7 @@ func vScenarioC17(rc *runCtx) {
 	// attackers
 	nAtt := tp.Pick("c17.natt", 2, 3, 2, 1)
 	var atts []*vAttacker
-	kinds := []string{"wrong-text", "wrong-id", "prefix-only", "right-plus-extra", "split-greeting", "silent", "flood", "right-second"}
+	kinds := []string{"wrong-text", "wrong-id", "prefix-only", "right-plus-extra", "split-greeting", "silent", "flood", "right-second", "id-shortened", "id-lengthened", "id-neighbour"}
 	for i := 0; i < nAtt; i++ {
 		a := &vAttacker{kind: kinds[tp.Draw("c17.kind", len(kinds))]}
 		a.at = time.Duration(tp.Draw("c17.at", 1500)) * time.Millisecond
@@ -174,6 +174,22 @@ func vScenarioC17(rc *runCtx) {
 				c.Write([]byte("GET / HTTP/1.0\r\n\r\n"))
 			case "wrong-id":
 				c.Write([]byte(fmt.Sprintf("::TRZSZ::CLIENT::HELLO::%s:%d", "99999999999", port)))
+			case "id-shortened":
+				// the id without its trailing 0/1/2 digits (or without its last digit): a different id
+				short := strings.TrimRight(uid, "012")
+				if short == uid && len(uid) > 1 {
+					short = uid[:len(uid)-1]
+				}
+				c.Write([]byte(fmt.Sprintf("::TRZSZ::CLIENT::HELLO::%s:%d", short, port)))
+			case "id-lengthened":
+				c.Write([]byte(fmt.Sprintf("::TRZSZ::CLIENT::HELLO::%s%s:%d", uid, []string{"0", "1", "2", "00", "20"}[i%5], port)))
+			case "id-neighbour":
+				// an id a millisecond away
+				nb := []byte(uid)
+				if n := len(nb); n > 0 {
+					nb[n-1] = '0' + (nb[n-1]-'0'+1)%10
+				}
+				c.Write([]byte(fmt.Sprintf("::TRZSZ::CLIENT::HELLO::%s:%d", nb, port)))
 			case "prefix-only":
 				c.Write([]byte(hello[:len(hello)-3]))
 			case "right-plus-extra":
